@@ -60,11 +60,22 @@ SEEDS = [
 ]
 
 
-def sh(cmd, cwd=W, env=None, timeout=3600):
+def sh(cmd, cwd=W, env=None, timeout=900):
     e = dict(os.environ)
     if env:
         e.update(env)
-    p = subprocess.run(cmd, shell=True, cwd=cwd, env=e, capture_output=True, text=True, timeout=timeout)
+    import signal
+    proc = subprocess.Popen(cmd, shell=True, cwd=cwd, env=e, stdout=subprocess.PIPE, stderr=subprocess.PIPE, text=True, start_new_session=True)
+    try:
+        so, se = proc.communicate(timeout=timeout)
+    except subprocess.TimeoutExpired:
+        os.killpg(proc.pid, signal.SIGKILL)
+        proc.communicate()
+        return 124, 'TIMEOUT'
+
+    class P:
+        returncode, stdout, stderr = proc.returncode, so, se
+    p = P
     return p.returncode, (p.stdout if p.stdout.strip() else p.stderr)
 
 
@@ -83,6 +94,8 @@ def main():
     for sid, srcs, pname, dname, prop, checks, needs in SEEDS:
         if only and sid not in only:
             continue
+        if not only and os.path.exists(os.path.join(V, 'seeded', sid, 'meta.json')):
+            continue   # already done in an earlier run
         patch = find(srcs.split(':')[0] if os.path.exists(os.path.join(V, 'seeded', srcs.split(':')[0], pname)) else srcs, pname)
         demo = find(srcs, dname)
         notes = None
